@@ -92,6 +92,9 @@ func (am *YAMLAccountManager) Create(account hotline.Account) error {
 	accountPath := filepath.Join(am.accountDir, path.Join("/", account.Login+".yaml"))
 	tempPath := filepath.Join(am.accountDir, accountTempFile)
 
+	// A crash between the link and the removal below leaves the temporary name linked to an account file:
+	// writing through it would overwrite that account, so start from a fresh file.
+	_ = os.Remove(tempPath)
 	if err := os.WriteFile(tempPath, b, 0644); err != nil {
 		return fmt.Errorf("write account file: %w", err)
 	}
@@ -143,6 +146,7 @@ func (am *YAMLAccountManager) Update(account hotline.Account, newLogin string) e
 	accountPath := filepath.Join(am.accountDir, path.Join("/", newLogin)+".yaml")
 	tempPath := filepath.Join(am.accountDir, accountTempFile)
 
+	_ = os.Remove(tempPath) // may still be linked to an account file after a crash in Create
 	if err := os.WriteFile(tempPath, out, 0644); err != nil {
 		return fmt.Errorf("error writing account file: %w", err)
 	}
